@@ -15,6 +15,8 @@ use garnish_lang_simple_data::{NumberIterator, SimpleDataFactory, SimpleNumber, 
 use garnish_lang_traits::{Extents, GarnishData, GarnishDataFactory, GarnishDataType, Instruction, SymbolListPart};
 use std::fmt::{Debug, Display, Formatter};
 
+/// default data-cell capacity (harnesses with symbolic addresses use a smaller `C`: every read through a
+/// symbolic address is a multiplexer over all `C` cells)
 pub const CELLS: usize = 40;
 pub const ITEMS: usize = 16;
 pub const CHARS: usize = 12;
@@ -94,8 +96,8 @@ pub struct SymPart {
     pub num: SimpleNumber,
 }
 
-pub struct BoundedData {
-    pub cells: [Cell; CELLS],
+pub struct BoundedData<const C: usize = CELLS> {
+    pub cells: [Cell; C],
     pub n_cells: usize,
     pub items: [usize; ITEMS],
     pub n_items: usize,
@@ -135,10 +137,10 @@ pub struct BoundedData {
 
 const NO_CALL: HostCall = HostCall { kind: HostKind::Resolve, op: Instruction::Invalid, left: (GarnishDataType::Invalid, 0), right: (GarnishDataType::Invalid, 0), sym: 0, accepted: false, reg_depth: 0 };
 
-impl BoundedData {
+impl<const C: usize> BoundedData<C> {
     pub fn new() -> Self {
         BoundedData {
-            cells: [Cell::empty(); CELLS],
+            cells: [Cell::empty(); C],
             n_cells: 0,
             items: [0; ITEMS],
             n_items: 0,
@@ -176,7 +178,7 @@ impl BoundedData {
     // ------------------------------------------------------------ construction helpers (harness side)
 
     pub fn push_cell(&mut self, c: Cell) -> Result<usize, BErr> {
-        if self.n_cells >= CELLS {
+        if self.n_cells >= C {
             self.overflowed = true;
             return Err(E_FULL);
         }
@@ -416,7 +418,7 @@ impl GarnishDataFactory<usize, SimpleNumber, char, u8, u64, BErr, SizeIterator, 
 
 // ------------------------------------------------------------ the trait
 
-impl GarnishData for BoundedData {
+impl<const C: usize> GarnishData for BoundedData<C> {
     type Error = BErr;
     type Symbol = u64;
     type Byte = u8;
